@@ -312,7 +312,7 @@ def run_ws_scenarios(run, wd, scen, tag, hooks=False, timeout=1800):
         for s in scen:
             f.write(json.dumps(s) + "\n")
     tf = "trace_%s.ndjson" % tag
-    run.harness("ws", wd, infile=os.path.basename(sf), outfile=tf, timeout=timeout, args={"hooks": "1"} if hooks else None)
+    run.harness("wsp", wd, infile=os.path.basename(sf), outfile=tf, timeout=timeout, args={"hooks": "1"} if hooks else None)
     shutil.copy(os.path.join(wd, tf), os.path.join(wd, "trace.ndjson"))
     res = run.validate_trace(wd, "ObsTrace.tla", "ObsTrace.cfg", timeout=1800)
     trace = vp.read_ndjson(os.path.join(wd, tf))
@@ -560,3 +560,169 @@ def c05(run, replay):
     for s in scen[:3]:
         run.sample(s)
     run.sample([e for e in trace if e.get("ev") in ("h:backoff.next", "DialStart", "DialEnd", "ServerUp", "ServerDown")][:14])
+
+
+# --------------------------------------------------------------------------------------------- C06 / C07 / C08 / C18
+CHAN_POINTS = ["chanh.add.pre", "chanh.add", "chanh.val", "chanh.close", "chanh.closeall", "closechans.pre", "sink.val.pre", "sink.close",
+               "buf.push", "buf.pop", "buf.close", "fwd.reg", "fwd.reg.done", "fwd.val", "fwd.close", "chout.reg.pre", "resp.deliver.pre",
+               "exec.pop", "cancel.recv", "cancel.enq.pre", "ctxasync.done", "handling.add", "handling.done", "call.spawn", "closeinflight.pre"]
+
+
+def perturb(rnd, scen, points, frac=0.5):
+    for s in scen:
+        if rnd.random() < frac:
+            s["args"]["p"] = rnd.choice([0.2, 0.5, 0.8])
+            s["args"]["delay"] = rnd.sample(points, 6)
+    return scen
+
+
+@check("C06")
+def c06(run, replay):
+    run.assumptions += [
+        "client A: unary 1, retry-tagged 2, subscription 3 (request id differs from its channel id); client B: unary 11, subscription 13 with the "
+        "same wire ids; every non-empty subset of A's calls is cancelled at one of the instants {before send, handler running, racing the response, "
+        "subscription established}; over HTTP cancellation = abort of the request",
+        "a handler that should be cancelled waits for its context (2 s) and reports if the cancellation never arrives; every other handler reports "
+        "a cancellation observed while it is still active",
+    ]
+    thorough = run.tier == "thorough"
+    wd = run.dir("work")
+    rnd = random.Random(run.seed)
+    run.model_check(wd, "WsRpc.tla", "WsRpc_c06.cfg" if thorough else "WsRpc_c06q.cfg", timeout=2400)
+    run.model_check(wd, "WsRpc.tla", "WsRpc_c06live.cfg", timeout=900)
+    scen = []
+    subsets = [[1], [2], [3], [1, 2], [1, 3], [2, 3], [1, 2, 3]]
+    for inst in ("pre", "running", "race", "established"):
+        for sub in subsets:
+            if inst == "established" and 3 not in sub:
+                continue
+            if not thorough and rnd.random() > 0.6:
+                continue
+            scen.append({"sc": "c06.cancel", "args": {"cancel": sub, "instant": inst}})
+    for inst in ("pre", "running", "race"):
+        for sub in ([1], [2], [1, 2]):
+            scen.append({"sc": "c06.cancel", "args": {"cancel": sub, "instant": inst, "transport": "http"}})
+    scen.append({"sc": "c06.cancel", "args": {"cancel": [], "instant": "running"}})
+    perturb(rnd, scen, CHAN_POINTS)
+    trace, viol = run_ws_scenarios(run, wd, scen, "c06", timeout=3000)
+    report_ws(run, trace, viol, "C06", scen, "cancel")
+    run.cov["distinct_nontrivial"] = len(set(json.dumps(s, sort_keys=True) for s in scen))
+    run.cov["rule"] = "cancelled subset x instant x transport (+ seeded hook delays); distinct = distinct descriptions"
+    for s in scen[:3]:
+        run.sample(s)
+    run.sample([e for e in trace if e.get("ev") in ("CallerCancel", "HandlerCtxDone", "CtxMissing", "CallEnd")][:12])
+
+
+def stream_scenarios(rnd, thorough):
+    scen = []
+    for lens, cons in ([[0, 1, 33, 300], ["fast", "slow", "fast", "fast"]], [[1, 0], ["fast", "fast"]], [[300], ["slow"]], [[33, 33, 33], ["fast", "slow", "fast"]],
+                       [[400, 50, 5], ["stalled", "fast", "slow"]], [[40, 300], ["fast", "stalled"]]):
+        scen.append({"sc": "c07.stream", "args": {"lens": lens, "consumers": cons, "unary": 3}})
+    # three or more concurrent streams closed by their handlers in every order (the forwarder's bookkeeping)
+    import itertools
+    toks = [3, 13, 23]
+    orders = list(itertools.permutations(toks))
+    for o in (orders if thorough else rnd.sample(orders, 3)):
+        scen.append({"sc": "c07.stream", "args": {"lens": [4, 4, 4, 4], "consumers": ["fast"] * 4, "closeorder": list(o), "unary": 1}})
+    scen.append({"sc": "c07.stream", "args": {"lens": [3, 3, 3, 3, 3], "consumers": ["fast"] * 5, "closeorder": rnd.sample([3, 13, 23, 33, 43], 5), "unary": 1}})
+    # far beyond every internal buffer size, with a subscriber that never reads
+    scen.append({"sc": "c07.stream", "args": {"lens": [40000 if thorough else 18000, 20], "consumers": ["stalled", "fast"], "unary": 3, "quietwire": True, "waitms": 20000}})
+    return scen
+
+
+@check("C07")
+def c07(run, replay):
+    run.assumptions += [
+        "stream lengths 0, 1, 33, 300 (beyond the 32-slot sink and the 256-slot executor queue) and 18000 / 40000 unread values; consumers fast, slow "
+        "and stalled; 3-5 concurrent streams closed by their handlers in every order; unary calls interleaved",
+        "wire order (response announcing a channel before its first value) is judged by the frame-aware proxy",
+        "handlers start sending immediately after returning the channel (no pacing), so 'however early' is exercised by every scenario",
+    ]
+    thorough = run.tier == "thorough"
+    wd = run.dir("work")
+    rnd = random.Random(run.seed)
+    run.model_check(wd, "WsRpc.tla", "WsRpc_c07.cfg", timeout=2400)
+    scen = perturb(rnd, stream_scenarios(rnd, thorough), CHAN_POINTS, 0.4)
+    trace, viol = run_ws_scenarios(run, wd, scen, "c07", timeout=3000)
+    report_ws(run, trace, viol, "C07", scen, "stream")
+    run.cov["distinct_nontrivial"] = len(set(json.dumps(s, sort_keys=True) for s in scen))
+    run.cov["rule"] = "stream scenarios as listed in assumptions; distinct = distinct descriptions"
+    for s in scen[:3]:
+        run.sample(s)
+    run.sample([e for e in trace if e.get("ev") in ("ChanSend", "ChanRecv", "ChanClosed", "HandlerChanClose")][:12])
+
+
+def term_scenarios(rnd, thorough):
+    scen = []
+    for cause in ("hclose", "cancel", "fin", "rst", "close", "srvcancel"):
+        for inst in ("preresp", "mid", "buffered", "raceclose"):
+            for n in ([4, 40] if thorough else [rnd.choice([4, 40])]):
+                scen.append({"sc": "c08.term", "args": {"cause": cause, "instant": inst, "n": n}})
+        # the cause strikes while values are in full flight through the executor and the sink (delays inside the delivery path)
+        for rep in range(3 if thorough else 1):
+            scen.append({"sc": "c08.term", "args": {"cause": cause, "instant": "streaming", "n": 400, "p": 0.7,
+                                                    "delay": ["sink.val.pre", "chanh.val", "chanh.closeall", "closechans.pre"]}})
+    return scen
+
+
+@check("C08")
+def c08(run, replay):
+    run.assumptions += [
+        "termination causes {handler close, context cancel, FIN, RST (incl. just before a reconnect), client close, server-side connection cancel} x "
+        "instants {before the channel-id response, between values, values still buffered, racing the close notification}; plus the C07 multi-stream "
+        "scenarios for the prefix / duplicate clauses and the TLC close-race witness forced with gates",
+        "'eventually closed' is judged when the scenario is over (cause happened, consumer drained, 3 s grace)",
+    ]
+    thorough = run.tier == "thorough"
+    wd = run.dir("work")
+    rnd = random.Random(run.seed)
+    run.model_check(wd, "WsRpc.tla", "WsRpc_c08.cfg", timeout=2400)
+    run.model_check(wd, "WsRpc.tla", "WsRpc_c08live.cfg", timeout=900)
+    r = run.tlc(wd, "WsRpc.tla", "WsRpc_c18race.cfg", timeout=600, tag="model_runs")
+    if r["violated"] != "ClosedAfterExit":
+        raise vp.ToolFailure("self-test: WsRpc without the exit-order repair should leave a channel open, got %s" % r["violated"])
+    scen = term_scenarios(rnd, thorough)
+    perturb(rnd, [s for s in scen if "p" not in s["args"]], CHAN_POINTS, 0.6)
+    scen += [s for s in stream_scenarios(rnd, False) if "closeorder" in s["args"]]
+    scen.append({"sc": "trap.closerace", "args": {}})
+    trace, viol = run_ws_scenarios(run, wd, scen, "c08", timeout=3000)
+    report_ws(run, trace, viol, "C08", scen, "termination")
+    run.cov["distinct_nontrivial"] = len(set(json.dumps(s, sort_keys=True) for s in scen))
+    run.cov["rule"] = "cause x instant x length (+ seeded hook delays) + multi-stream close orders + close-race trap; distinct = distinct descriptions"
+    for s in scen[:3]:
+        run.sample(s)
+    run.sample([e for e in trace if e.get("ev") in ("ChanRecv", "ChanClosed", "WireFault", "CloserStart", "CloserEnd", "CallerCancel")][:12])
+
+
+@check("C18")
+def c18(run, replay):
+    run.assumptions += [
+        "the closer is fired when the i-th hook point of a mixed workload (gated and free unary calls, a 300 kB result, a retry-tagged call, a "
+        "notification, a paced stream) is passed, for a seeded sample of i in 1..260 (all i in thorough), also while the client redials an "
+        "unreachable server; plus a peer answering a channel call with a non-channel result, the TLC close-race witness, and HTTP / custom closers",
+        "after the closer returned: outstanding calls get 3 s, a later call 2 s, late redials 25-60 ms to show up",
+    ]
+    thorough = run.tier == "thorough"
+    wd = run.dir("work")
+    rnd = random.Random(run.seed)
+    run.model_check(wd, "WsRpc.tla", "WsRpc_c18.cfg", timeout=2400)
+    r = run.tlc(wd, "WsRpc.tla", "WsRpc_c18race.cfg", timeout=600, tag="model_runs")
+    if r["violated"] != "ClosedAfterExit":
+        raise vp.ToolFailure("self-test: WsRpc without the exit-order repair should leave a channel open, got %s" % r["violated"])
+    scen = []
+    instants = list(range(1, 261)) if thorough else sorted(rnd.sample(range(1, 261), 36))
+    for i in instants:
+        scen.append({"sc": "c18.close", "args": {"at": i}})
+    for i in (range(5, 200, 6) if thorough else rnd.sample(range(5, 200), 10)):
+        scen.append({"sc": "c18.close", "args": {"at": i, "outage": True, "runms": rnd.choice([6, 12, 25]), "afterms": 60}})
+    perturb(rnd, scen, CHAN_POINTS + HOOK_POINTS_REQ, 0.3)
+    scen.append({"sc": "c18.badchan", "args": {}})
+    scen.append({"sc": "trap.closerace", "args": {}})
+    scen.append({"sc": "c18.otherclosers", "args": {}})
+    trace, viol = run_ws_scenarios(run, wd, scen, "c18", timeout=3000)
+    report_ws(run, trace, viol, "C18", scen, "close")
+    run.cov["distinct_nontrivial"] = len(set(json.dumps(s, sort_keys=True) for s in scen))
+    run.cov["rule"] = "close instant i (hook-point index) x {healthy, redialling} (+ seeded hook delays) + special scenarios; distinct = distinct descriptions"
+    for s in scen[:2] + scen[-3:]:
+        run.sample(s)
+    run.sample([e for e in trace if e.get("ev") in ("CloserStart", "CloserEnd", "CallEnd", "ChanClosed", "DialStart", "Quiesce")][:14])
